@@ -535,7 +535,12 @@ def check_styles(ctx, sch, rnd):
     ctx.count("style_probes", len(exp))
     ctx.ev()
     got = {}
-    doc.descendants(lambda n, pos, par, idx: got.__setitem__(n.text.strip(), {m.type.name for m in n.marks}) if n.is_text and n.text.strip() else None)
+    def visit(n, pos, par, idx):
+        if n.is_text:
+            for w_ in n.text.split():
+                got[w_] = {m.type.name for m in n.marks}
+
+    doc.descendants(visit)
     for w, marks in exp:
         if got.get(w) != marks:
             ctx.violation("style-rule", "word %s of %s has marks %r, the style rules give %r" % (w, html, sorted(got.get(w) or []), sorted(marks)),
